@@ -96,6 +96,14 @@ CLAIMED = {
    note="S3/SFTP index stores are not exercised (same IndexFromReader). The tokeniser in the driver is trusted.",
    technique="TLA+ spec of the format with theorems checked by TLC; trace validation of written and read files",
    design="4/C04"),
+ "C15": dict(
+   text="HttpServer.tla states the property as a decision rule over a request row (RowOK) and an abstract model of both handlers; TLC checks the rule on the "
+        "model for every configuration and request class. The complete request table (9216 rows, more strings per class in the thorough tier) is sent to "
+        "the real handlers over a sandboxed store with sentinels outside it, with store calls logged and the sandbox snapshotted around every request; "
+        "every row is judged by RowOK.",
+   note="Handlers are driven in-process; the binaries add http.ServeMux path cleaning in front of them.",
+   technique="TLA+ decision-table spec checked by TLC; exhaustive table replay on the real handlers validated by TLC",
+   design="4/C15"),
 }
 
 NOT_YET = "check not built yet in this round (planned in DESIGN.md section 4)"
